@@ -431,7 +431,8 @@ theorem valueIn_of_feasible (o : HOpts) (nomOf : String → Rat) (g : Goal) (s :
     (hcrit : g.critical = false) (hs : Sane nomOf g) (hvr : 0 ≤ o.violationRelaxation)
     (hcr : 0 ≤ o.constraintRelaxation)
     (hsoft : g.hasTargetBounds = true → SoftOK g s gj i)
-    (hnf : g.hasTargetBounds = true → NoFold o g (s.eps gj i + o.violationRelaxation) i) :
+    (hnf : g.hasTargetBounds = true → vtFires o (s.eps gj i + o.violationRelaxation) = false →
+      NoFold o g (s.eps gj i + o.violationRelaxation) i) :
     ValueIn o nomOf g s gj i := by
   unfold ValueIn hardStep scaled
   have hnom := hs.nom_pos
@@ -449,10 +450,20 @@ theorem valueIn_of_feasible (o : HOpts) (nomOf : String → Rat) (g : Goal) (s :
       linarith
   | true =>
     simp only [if_true]
+    cases hvt : vtFires o (s.eps gj i + o.violationRelaxation) with
+    | true =>
+      simp only [if_true, fixedStep, hs.nom_eq, Ivl.mem, EVal.le_fin_fin]
+      have h1 : (s.fval g.fk i - g.relaxation) / nomOf g.fk ≤ s.fval g.fk i / nomOf g.fk :=
+        div_le_div_of_nonneg_right (by linarith [hs.relax_nonneg]) (le_of_lt hnom)
+      have h2 : s.fval g.fk i / nomOf g.fk ≤ (s.fval g.fk i + g.relaxation) / nomOf g.fk :=
+        div_le_div_of_nonneg_right (by linarith [hs.relax_nonneg]) (le_of_lt hnom)
+      constructor <;> linarith
+    | false =>
+    simp only [Bool.false_eq_true, if_false]
     obtain ⟨lo, hlo⟩ := hs.lo_fin ht
     obtain ⟨hi, hhi⟩ := hs.hi_fin ht
     obtain ⟨hs1, hs2⟩ := hsoft ht
-    have hnf' := hnf ht
+    have hnf' := hnf ht hvt
     unfold NoFold at hnf'
     simp only [hardTargetStep, hnf']
     constructor
